@@ -1,6 +1,6 @@
 # table consumed by tools_manifest.py
 ENGINES = [
-    {"name": "vv", "path": "vv/", "serves_properties": ["C02", "C03", "C04", "C05", "C06", "C07", "C09", "C12", "C13", "C15", "C17", "C18", "C19"], "kind_free_text": "runtime monitors: generators, independent flatbuffer reader/writer, compile drivers, sharded worker harness, evidence/findings"},
+    {"name": "vv", "path": "vv/", "serves_properties": ["C02", "C03", "C04", "C05", "C06", "C07", "C09", "C11", "C12", "C13", "C15", "C17", "C18", "C19"], "kind_free_text": "runtime monitors: generators, independent flatbuffer reader/writer, compile drivers, sharded worker harness, evidence/findings"},
 ]
 NOTES = ("Technique family: runtime monitoring and sanitizers. Every check runs the real code from /repo's working tree (codec rebuilt from the C "
          "sources on every run) under generated workloads with oracles observing executions; verdicts are violated / held-on-what-was-observed / "
@@ -119,3 +119,12 @@ check("C03", "exploration",
       "Monitor 1 (defined-before-use) decides uninitialised and never-written bytes; stale or foreign-tensor bytes are decided by the writer-tag / poison-differential monitors that "
       "ride on the NPU executor (reported with C01 until merged).",
       "offline trace replay with shadow memory (defined-before-use)", "DESIGN.md 4/C03")
+
+check("C11", "translation_validation",
+      "Per-compilation artefact diff: source and output files are parsed by the independent flatbuffer reader; subgraph inputs/outputs must agree in order, name, shape, type and "
+      "quantisation; every live source operator must be absorbed (none of its outputs produced by an output operator, or produced by an Ethos-U operator), folded to a constant, or "
+      "present exactly once with identical opcode, version, builtin options (compared field by field through the generated accessor classes, absent table = all defaults), custom "
+      "option bytes, operand wiring by tensor name, operand tensor signatures and byte-identical constant operands; operator order must respect data dependencies; the written file "
+      "must be accepted by model_reader.read_model and by the plain reader. Campaign biased to CPU/NPU mixes, third-party custom ops, dynamic weights, multi-output graphs.",
+      "Tensor identity is by name; 'absorbed' is decided from the artefact, not from the pipeline's own record.",
+      "translation validation by artefact diff (independent parser)", "DESIGN.md 4/C11")
